@@ -508,6 +508,26 @@ impl Ctx {
         Some(Self::imeta_res(mgr.parse_imeta_tag(tags.first()?)))
     }
 
+    /// C17 (media part): are the HKDF contexts / AADs of two metadata triples the same?  Observed through
+    /// the real primitives: equal derived keys ⇔ equal context (A8), decrypt under the second triple's AAD
+    /// opens ⇔ equal AAD (A8).
+    fn media_pair(&self, t: &[&str]) -> Option<String> {
+        use mdk_core::encrypted_media::crypto::{DEFAULT_SCHEME_VERSION, decrypt_data_with_aad, derive_encryption_key, encrypt_data_with_aad};
+        let get = |k: &str| -> Option<([u8; 32], String, String)> {
+            let h: [u8; 32] = arr(&hex::decode(field(t, &format!("h{k}"))?).ok()?)?;
+            Some((h, utf8(unhex(field(t, &format!("m{k}"))?)?)?, utf8(unhex(field(t, &format!("f{k}"))?)?)?))
+        };
+        let (h1, m1, f1) = get("1")?;
+        let (h2, m2, f2) = get("2")?;
+        let k1 = derive_encryption_key(&self.mdk, &self.fixture_group, DEFAULT_SCHEME_VERSION, &h1, &m1, &f1).ok()?;
+        let k2 = derive_encryption_key(&self.mdk, &self.fixture_group, DEFAULT_SCHEME_VERSION, &h2, &m2, &f2).ok()?;
+        let nonce = mdk_storage_traits::Secret::new([7u8; 12]);
+        let ct = encrypt_data_with_aad(b"media bytes", &k1, &nonce, DEFAULT_SCHEME_VERSION, &h1, &m1, &f1).ok()?;
+        let opened = decrypt_data_with_aad(&ct, &k1, &nonce, DEFAULT_SCHEME_VERSION, &h2, &m2, &f2);
+        let same_key = k1.as_ref() == k2.as_ref();
+        Some(format!("ctx={} aad={}", if same_key { "same" } else { "diff" }, if opened.is_ok() { "open" } else { "fail" }))
+    }
+
     fn exec(&self, t: &[&str]) -> String {
         let r = match t[0] {
             "pool" => Some(format!("ok {}", self.pool.iter().map(|k| k.public_key().to_hex()).collect::<Vec<_>>().join(","))),
@@ -520,6 +540,7 @@ impl Ctx {
             "hex_gid" => self.hex_gid(t),
             "imeta_create" => self.imeta_create(t),
             "imeta_parse" => self.imeta_parse(t),
+            "media_pair" => self.media_pair(t),
             _ => None,
         };
         r.unwrap_or_else(|| "bad-op".into())
